@@ -25,6 +25,9 @@
 //	recv.Called(...) -> Embedded 0 ; recv.mock.On(...) -> Embedded 1 ; recv.Call.<X>(...) -> Embedded 2
 //	&recv.Mock, recv.<generated method>(...)            -> Local
 //	assignment to anything reachable from the receiver, package-level variables  -> error
+//	a closure (handed to testify: Run/RunAndReturn/Cleanup) reading or writing a captured variable
+//	that is assigned after its declaration   -> Snap k / WriteNil k on an unprotected location k
+//	(the kernel check then fails: not a testify_instr, not well locked)
 package main
 
 import (
@@ -81,6 +84,116 @@ type tr struct {
 	done    []Path
 	defers  [][]Instr
 	usedDefer bool
+	written map[*ast.Object]bool // variables of the enclosing function that are assigned after their declaration
+	shared  map[*ast.Object]int  // captured mutable variables -> location number
+}
+
+// writtenVars: the variables (by object) that are written somewhere in fn after their declaration:
+// left-hand sides of = / op= (through index, field, dereference), ++/--, range with =, &x.
+func writtenVars(body *ast.BlockStmt) map[*ast.Object]bool {
+	w := map[*ast.Object]bool{}
+	mark := func(e ast.Expr, decl ast.Node) {
+		id := rootIdent(e)
+		if id == nil || id.Obj == nil || id.Obj.Kind != ast.Var {
+			return
+		}
+		if _, plain := e.(*ast.Ident); plain && decl != nil && id.Obj.Decl == decl {
+			return // the declaration itself (x := ...)
+		}
+		w[id.Obj] = true
+	}
+	ast.Inspect(body, func(n ast.Node) bool {
+		switch x := n.(type) {
+		case *ast.AssignStmt:
+			for _, l := range x.Lhs {
+				if x.Tok == token.DEFINE {
+					mark(l, x)
+				} else {
+					mark(l, nil)
+				}
+			}
+		case *ast.IncDecStmt:
+			mark(x.X, nil)
+		case *ast.RangeStmt:
+			if x.Tok == token.ASSIGN {
+				if x.Key != nil {
+					mark(x.Key, nil)
+				}
+				if x.Value != nil {
+					mark(x.Value, nil)
+				}
+			}
+		case *ast.UnaryExpr:
+			if x.Op == token.AND {
+				if id, ok := x.X.(*ast.Ident); ok && id.Obj != nil && id.Obj.Kind == ast.Var {
+					w[id.Obj] = true // its address escapes
+				}
+			}
+		}
+		return true
+	})
+	return w
+}
+
+// captured: accesses of a closure to variables declared outside it that are mutable (written after
+// their declaration anywhere in the enclosing function).  A closure handed to testify (Run /
+// RunAndReturn / Cleanup) runs on the goroutine of whoever calls the mocked method, outside testify's
+// mutex: such a variable is shared state without a lock -> Snap k (read) / WriteNil k (write) of a
+// location k that no lock protects.  Immutable captures (the `run` parameter, a variable assigned
+// once at its declaration) are plain values.
+func (t *tr) captured(lit *ast.FuncLit) []Instr {
+	type acc struct{ read, write bool }
+	found := map[*ast.Object]*acc{}
+	var order []*ast.Object
+	note := func(id *ast.Ident, write bool) {
+		if id == nil || id.Obj == nil || id.Obj.Kind != ast.Var {
+			return
+		}
+		if pos := id.Obj.Pos(); pos >= lit.Pos() && pos < lit.End() {
+			return // declared inside the closure
+		}
+		if !t.written[id.Obj] {
+			return
+		}
+		a := found[id.Obj]
+		if a == nil {
+			a = &acc{}
+			found[id.Obj] = a
+			order = append(order, id.Obj)
+		}
+		if write {
+			a.write = true
+		} else {
+			a.read = true
+		}
+	}
+	ast.Inspect(lit.Body, func(n ast.Node) bool {
+		switch x := n.(type) {
+		case *ast.AssignStmt:
+			for _, l := range x.Lhs {
+				note(rootIdent(l), true)
+			}
+		case *ast.IncDecStmt:
+			note(rootIdent(x.X), true)
+		case *ast.Ident:
+			note(x, false)
+		}
+		return true
+	})
+	var out []Instr
+	for _, o := range order {
+		k, ok := t.shared[o]
+		if !ok {
+			k = len(t.shared)
+			t.shared[o] = k
+		}
+		if found[o].write {
+			out = append(out, Instr{"WriteNil", k})
+		} else {
+			out = append(out, Instr{"Snap", k})
+		}
+	}
+	return out
 }
 
 func rootIdent(e ast.Expr) *ast.Ident {
@@ -188,16 +301,17 @@ func (t *tr) expr(e ast.Expr) []Instr {
 	case *ast.TypeAssertExpr:
 		return t.expr(x.X)
 	case *ast.FuncLit:
-		// a closure: its body may only do local work or embedded-mock calls (it runs at an unknown time)
-		sub := &tr{fset: t.fset, kind: t.kind, recv: t.recv, methods: t.methods, own: t.own, globals: t.globals}
+		// a closure: its body may only do local work or embedded-mock calls (it runs at an unknown time,
+		// possibly on another goroutine); captured mutable variables are unprotected shared locations
+		sub := &tr{fset: t.fset, kind: t.kind, recv: t.recv, methods: t.methods, own: t.own, globals: t.globals, written: t.written, shared: t.shared}
 		open := sub.block(x.Body.List, [][]Instr{nil})
 		for _, p := range open {
 			sub.finish(p, "return")
 		}
-		var out []Instr
+		out := t.captured(x)
 		for _, p := range sub.done {
 			for _, in := range p.Ins {
-				if in[0] != "Local" && in[0] != "Embedded" {
+				if in[0] != "Local" && in[0] != "Embedded" && in[0] != "Snap" && in[0] != "WriteNil" {
 					fail(t.fset, x.Pos(), "closure touches shared mock state (%v)", in)
 				}
 			}
@@ -465,7 +579,7 @@ func (t *tr) stmt(s ast.Stmt, open [][]Instr) [][]Instr {
 		return open
 	case *ast.ForStmt, *ast.RangeStmt:
 		// loop bodies may only do local work; emitted once
-		sub := &tr{fset: t.fset, kind: t.kind, recv: t.recv, methods: t.methods, own: t.own, globals: t.globals}
+		sub := &tr{fset: t.fset, kind: t.kind, recv: t.recv, methods: t.methods, own: t.own, globals: t.globals, written: t.written, shared: t.shared}
 		var body *ast.BlockStmt
 		var ins []Instr
 		switch l := x.(type) {
@@ -650,7 +764,8 @@ func translate(fset *token.FileSet, path string) File {
 			}
 			mk = mocks[""]
 		}
-		t := &tr{fset: fset, kind: out.Kind, recv: rname, methods: methodIds[rtyp], own: ownMethods[rtyp], globals: globals}
+		t := &tr{fset: fset, kind: out.Kind, recv: rname, methods: methodIds[rtyp], own: ownMethods[rtyp], globals: globals,
+			written: writtenVars(fd.Body), shared: map[*ast.Object]int{}}
 		open := t.block(fd.Body.List, [][]Instr{nil})
 		for _, p := range open {
 			t.finish(p, "return")
